@@ -51,6 +51,8 @@ def spec_of(job):
         sp, nm = GG.random_spec(rng, n), GG.random_names(rng, n)
         if rng.random() < 0.4:
             sp, nm = GG.add_name_clashes(rng, sp, nm)
+        if rng.random() < 0.4:
+            nm = GG.prefix_names(rng, sp, nm)
         return sp, nm
     raise ValueError(kind)
 
@@ -184,6 +186,16 @@ def base_doc_chain():
         "/z/{zid}": {"get": {"operationId": "getZ", "tags": ["zeta"], "parameters": [{"name": "zid", "in": "path", "required": True, "schema": {"type": "integer"}},
                                                                                        {"name": "e", "in": "query", "schema": {"$ref": REF + "E"}}],
                              "responses": OK({"$ref": REF + "Z"})}},
+        "/multi/{mid}": {
+            "get": {"operationId": "getMulti", "tags": ["zeta"], "parameters": [{"name": "mid", "in": "path", "required": True, "schema": {"type": "string"}},
+                                                                             {"name": "filter", "in": "query", "schema": {"type": "string"}},
+                                                                             {"name": "X-Trace", "in": "header", "schema": {"type": "string"}}],
+                    "responses": OK({"$ref": REF + "Z"})},
+            "delete": {"operationId": "deleteMulti", "tags": ["zeta"], "parameters": [{"name": "mid", "in": "path", "required": True, "schema": {"type": "string"}}],
+                       "responses": {"204": {"description": "gone"}}},
+            "patch": {"operationId": "patchMulti", "tags": ["alpha"], "parameters": [{"name": "mid", "in": "path", "required": True, "schema": {"type": "string"}},
+                                                                                 {"name": "filter", "in": "query", "schema": {"type": "integer"}}],
+                      "requestBody": {"content": {"application/json": {"schema": {"$ref": REF + "B"}}}}, "responses": OK({"$ref": REF + "B"})}},
         "/y": {"put": {"operationId": "putY", "tags": ["zeta"], "requestBody": {"content": {"application/json": {"schema": {"$ref": REF + "Y"}}}},
                        "responses": {"204": {"description": "none"}, **OK({"type": "array", "items": {"$ref": REF + "Y"}})}}},
     }
@@ -278,7 +290,26 @@ def positions(doc):
             if method in ("get", "put", "post", "delete", "patch"):
                 for p in OP_POS:
                     out.append(("op", path, method, p))
+        # PATH-ITEM parameter level: a bad parameter every operation of the path inherits, and one that some operation overrides
+        if not any(isinstance(q, dict) and "$ref" in q for q in item.get("parameters", []) or []):
+            out.append(("pathitem", path, "inherit_param"))
+            if overridable_param(item) is not None:
+                out.append(("pathitem", path, "override_param"))
     return out
+
+
+def op_methods(item):
+    return [m for m in ("get", "put", "post", "delete", "options", "head", "patch", "trace") if isinstance(item.get(m), dict)]
+
+
+def overridable_param(item):
+    """(name, location) of an inline query/header/cookie parameter some operation of the path item declares itself and the path item does not"""
+    declared = {(q.get("name"), q.get("in")) for q in item.get("parameters", []) or [] if isinstance(q, dict)}
+    for m in op_methods(item):
+        for q in item[m].get("parameters", []) or []:
+            if isinstance(q, dict) and "$ref" not in q and q.get("in") in ("query", "header", "cookie") and (q.get("name"), q.get("in")) not in declared:
+                return q["name"], q["in"]
+    return None
 
 
 def first_parent_prop(doc, s):
@@ -334,6 +365,19 @@ def insert(doc, pos, piece_name, tag="zz_bad"):
             k, t = pp
             s["allOf"].append({"type": "object", "properties": {k: {"type": "boolean" if t != "boolean" else "string"}}})
         return d, ("schema", name)
+    if pos[0] == "pathitem":
+        _, path, p = pos
+        item = d["paths"][path]
+        if p == "inherit_param":
+            nm, loc = tag, "query"
+        else:
+            nm, loc = overridable_param(item)
+        # the operations that re-declare (name, location) themselves never look at the path item's version (add_parameters:
+        # "Defined at the operation level, ignore it here"): only the others inherit the bad piece
+        inheriting = [m for m in op_methods(item)
+                      if not any(isinstance(q, dict) and q.get("name") == nm and q.get("in") == loc for q in item[m].get("parameters", []) or [])]
+        item.setdefault("parameters", []).append({"name": nm, "in": loc, "schema": b})
+        return d, [("op", f"{m.upper()} {path}") for m in inheriting]
     _, path, method, p = pos
     op = d["paths"][path][method]
     key = f"{method.upper()} {path}"
@@ -503,8 +547,8 @@ def c_worker(job):
                 res["skipped"] = "not applicable"
                 return res
             d2, ow = ins
-            owners.append(ow)
-        owner = owners[0]
+            owners.extend(ow if isinstance(ow, list) else [ow])
+        owner = owners[0] if owners else None
         res["owner"] = [list(o) for o in owners]
         with impl.Gen(d2) as g:
             if g.exc is not None:
@@ -526,7 +570,7 @@ def c_worker(job):
             for o in owners:
                 if not (names_schema(text, o[1]) if o[0] == "schema" else names_op(text, o[1])):
                     res["problems"].append({"kind": "piece-undiagnosed", "owner": list(o), "diagnostics": [h for _, h, _ in diags][:6]})
-            orig_keys = {f"{ps[2].upper()} {ps[1]}" for ps, _ in inserts if ps[0] == "op"}
+            orig_keys = {f"{ps[2].upper()} {ps[1]}" for ps, _ in inserts if ps[0] == "op"} | {o[1] for o in owners if o[0] == "op"}
             op_owner_keys = {o[1] for o in owners if o[0] == "op"}
             def api_related(f):
                 key, opjson = ops1.get(f, (None, None))
@@ -681,10 +725,10 @@ def stage_c(run, tier, rng, replay_cases=None):
         for label, (doc, files, nd) in base.items():
             full = (tier != "quick" and not label.startswith("gen"))
             for pos in positions(doc):
-                needs_piece = (pos[0] == "schema" and pos[2] in SCHEMA_POS) or (pos[0] == "op" and pos[3] in ("param", "body", "response"))
+                needs_piece = (pos[0] == "schema" and pos[2] in SCHEMA_POS) or (pos[0] == "op" and pos[3] in ("param", "body", "response")) or pos[0] == "pathitem"
                 if not needs_piece:
                     pcs = ["n/a"]
-                elif full or (label in ("chain", "union") and pos[-1] == "prop"):
+                elif full or (label in ("chain", "union") and (pos[-1] == "prop" or pos[0] == "pathitem")):
                     pcs = pieces
                 else:
                     pcs = [pieces[k % len(pieces)]]; k += 1
@@ -697,10 +741,10 @@ def stage_c(run, tier, rng, replay_cases=None):
                 doc, files, nd = base[label]
                 ps = positions(doc)
                 a, b2 = rng.sample(ps, 2)
-                if a[0] == "op" and b2[0] == "op" and a[1:3] == b2[1:3]:
+                if a[0] in ("op", "pathitem") and b2[0] in ("op", "pathitem") and a[1] == b2[1]:
                     continue
                 def pc_for(pos):
-                    return rng.choice(pieces) if ((pos[0] == "schema" and pos[2] in SCHEMA_POS) or (pos[0] == "op" and pos[3] in ("param", "body", "response"))) else "n/a"
+                    return rng.choice(pieces) if ((pos[0] == "schema" and pos[2] in SCHEMA_POS) or (pos[0] == "op" and pos[3] in ("param", "body", "response")) or pos[0] == "pathitem") else "n/a"
                 jobs.append((label, doc, files, [(a, pc_for(a)), (b2, pc_for(b2))], rng.randrange(1 << 30)))
     print("stage C: %d base documents, %d (D, b, position) cases" % (len(base), len(jobs)))
     results = []
